@@ -5,3 +5,6 @@ export CARGO_NET_OFFLINE=true
 export CARGO_TARGET_DIR=/verif/target
 cd /verif/harness
 cargo build --release --offline
+# the one-case runner C16's very-long-runs site uses (dev profile; ./check C16 rebuilds it as well)
+cd /verif/deepbin
+CARGO_TARGET_DIR=/verif/target/deep cargo build --offline
